@@ -129,6 +129,9 @@ func (k *c06) RunCase(c *core.Ctx, i int) {
 		{"weights-many-commodities", []string{"portfolio", "weights", "-v", "CHF", "--to", "2020-03-01", "--color=false", "--digits", "14", "many.knut"}},
 		{"returns-many-commodities", []string{"portfolio", "returns", "-v", "CHF", "--to", "2020-03-01", "--weeks", "many.knut"}},
 		{"balance-many-commodities", []string{"balance", "-v", "CHF", "--to", "2020-03-01", "--digits", "8", "--color=false", "many.knut"}},
+		{"balance-many-commodities-unvalued", []string{"balance", "--to", "2020-03-01", "--csv", "many.knut"}},
+		{"check-write-many-commodities", []string{"check", "--write", "many.knut"}},
+		{"transcode-many-commodities", []string{"transcode", "-v", "CHF", "many.knut"}},
 		{"infer", []string{"infer", "-t", "main.knut", "target.knut"}},
 		{"register", []string{"register", "--to", to, "main.knut"}},
 		{"import-revolut2-two-currencies", []string{"import", "revolut2", "--account", "Assets:Revolut", "--fee", "Expenses:Fees", "rev2.csv"}},
@@ -149,12 +152,16 @@ func (k *c06) RunCase(c *core.Ctx, i int) {
 	}
 	gmp := []string{"1", "2", "4", "16"}
 	for _, cs := range cmds {
+		if c.OverBudget() {
+			c.NotJudged(1)
+			return
+		}
 		outs := map[string]int{}
 		var firstOut, otherOut string
 		var firstDesc, otherDesc string
 		arrivals := map[string]bool{}
 		failedRuns := 0
-		for n := 0; n < k.runs; n++ {
+		for n := 0; n < k.runs && !c.OverBudget(); n++ {
 			env := []string{"GOMAXPROCS=" + gmp[n%len(gmp)]}
 			if n%2 == 1 {
 				env = append(env, fmt.Sprintf("KNUT_VERIF_SCHED=%d:300:200", i*1000+n))
@@ -236,6 +243,13 @@ func manyCommodities(r *rand.Rand) string {
 	}
 	for i := 0; i < n; i += 2 {
 		fmt.Fprintf(&b, "2020-02-0%d price C%d 0.%d%d7 CHF\n", 1+r.Intn(9), i, 1+r.Intn(9), 1+r.Intn(9))
+	}
+	// commodities whose names differ only in letter case, held in equal amounts in one account
+	for i := 0; i < 3; i++ {
+		q := 1 + r.Intn(500)
+		for _, name := range []string{fmt.Sprintf("Tw%d", i), fmt.Sprintf("tw%d", i), fmt.Sprintf("TW%d", i)} {
+			fmt.Fprintf(&b, "2020-01-01 price %s 1.5 CHF\n\n2020-01-05 \"twin\"\nEquity:Opening Assets:Bank %d %s\n\n", name, q, name)
+		}
 	}
 	return b.String()
 }
